@@ -49,14 +49,14 @@ CHECKS = {
    "rid-based simulcast publishers are not generated; per-stream requests and aborts are modelled as lasting until the next push (documented in the evidence assumptions).", "5/C07"),
 
  "C17": ("exploration", "request-matrix monitor: status / byte-level snapshots / sentinel and marker scanning of every response, plus a preservation model over authorised update sequences",
-   "7 methods x 42 endpoint shapes x 39 credential kinds per target group against the real server in a child process: insufficient credentials must get 401 (404 where the path does not exist) with the groups directory and token file byte-identical and no planted marker in the response; no response ever contains a planted secret sentinel; random sequences of authorised updates are compared item by item with a model of what each request addresses. Held on the requests issued.",
+   "7 methods x 42 endpoint shapes x 39 credential kinds per target group against the real server in a child process: insufficient credentials must get 401 (404 where the path does not exist) with the groups directory and token file byte-identical and no planted marker in the response; no response ever contains a planted secret sentinel; random sequences of authorised updates are compared item by item with a model of what each request addresses, a quarter of them against a group that is live in the server (cached description), with the replaced password of a group administrator probed after every accepted change. Held on the requests issued.",
    "Secrets and group data are recognised by planted unique strings; a few shapes are counted but not judged (listed in the evidence assumptions).", "5/C17"),
 
  "C15": ("exploration", "nonce-tagged message log vs every client's received chat/usermessage/chathistory at logical quiescence",
    "Real server in a child process; every sent message carries a unique nonce; at each quiescence point authenticity (source/username), the privileged flag, exact delivery sets for broadcast / addressed / bad-destination / spoofed / unpermitted messages, socket closure of spoofers, and the replayed history (<= 50 entries, order, clearchat variants, age) are judged against the sender-side log. Held on the executions observed.",
    "Permission-dependent clauses are asserted only in epochs where the sender's permissions did not change; history age asserted only beyond 3.5 s / below 0.5 s with max-history-age 2 s.", "5/C15"),
  "C19": ("exploration", "syscall monitor (strace -f -y) of the real server with a sentinel tree around its directories + validator agreement on generated strings",
-   "The server runs under strace while hostile names (.., //, backslash, %-encodings, NUL, symlink components) are used as group name, username (in the join message, inside a stateful token, as the sub of a signed JWT), token group, URL paths, recording path, static path and delete-form filename (raw hand-written HTTP); recordings of hostile usernames, also four connections of one user at the same instant (numbered fallback names); every file syscall is attributed to one input and resolved (lexically, through live symlinks, and by the returned fd): writes/unlinks/renames must stay inside the roots, no sentinel may be touched, served or modified; validGroupName/validUsername/parseGroupName/sanitise are compared with a reference predicate on 10^5-10^7 strings. Held on the inputs tried; four open known findings rooted in os.Root of the pinned go1.24.0.",
+   "The server runs under strace while hostile names (.., //, backslash, %-encodings, NUL, symlink components) are used as group name, username (in the join message, inside a stateful token, as the sub of a signed JWT), token group, URL paths, recording path, static path and delete-form filename (raw hand-written HTTP); recordings of hostile usernames, also four connections of one user at the same instant (numbered fallback names); every file syscall is attributed to one input and resolved (lexically, through live symlinks, and by the returned fd): writes/unlinks/renames must stay inside the roots, no sentinel may be touched, served or modified, what the delete form removes lies directly in the group's own recording directory; validGroupName/validUsername/parseGroupName/sanitise are compared with a reference predicate on 10^5-10^7 strings. Held on the inputs tried; four open known findings rooted in os.Root of the pinned go1.24.0.",
    "Operator-placed symlinks inside the groups directory are observed, not judged (lexical confinement); system reads are allow-listed from a benign baseline run.", "5/C19"),
  "C20": ("exploration", "ground-truth frame list vs the produced WebM/Matroska file parsed with an independent EBML reader; root-cause attribution with a stand-alone copy of the pinned sample builder",
    "The real diskwriter is driven through conn.Up/UpTrack (no hooks) with hash-identified Opus/VP8/VP9/H264 frames under delivery histories (reordering, duplicates, gaps the cache can or cannot fill, seqno and timestamp wrap, sender reports at any point); every block must be byte-identical to a sent frame, unique, ordered, with non-decreasing timecodes, complete from the first keyframe when everything is recoverable, in a well-formed container that is closed on stop/departure; an end-to-end tier records a real pion publisher (multi-packet VP8 + Opus, seqno/timestamp wraps, four ways of ending, camera added after 'record') through the real server. Held on the sessions run; open known findings: four in the pinned jech/samplebuilder dependency (one of them kills the server), three in diskwriter's time origin handling.",
@@ -70,7 +70,7 @@ CHECKS = {
    "Process interruption at syscall granularity only; only the clear precondition cases are asserted; constant-size writers pace themselves (25 ms) so that versions differ in modification time.", "5/C18"),
 
  "C12": ("exploration", "canary-arena parser fuzzing with recover() + grammar-based hostile websocket / HTTP / RTP workloads against the real server in child processes with liveness canaries and crash signatures",
-   "(A) 2.5M-126M generated inputs per run into Keyframe, KeyframeDimensions, PacketFlags, RewritePacket and sdpfrag inside canary-filled arenas: no panic, length unchanged, canaries and foreign bytes intact. (B) every signalling message type x field mutation x 23 membership states (incl. 13 kinds of refused join, pipelined, concurrent), raw frames; (C) 31 path shapes x 9 methods x credentials x bodies, a third hand-written on a raw connection, WHIP session lives; (D) real SRTP sessions with hostile payloads of every codec: after each batch a canary client, a fresh join and a bystander are still served, every request got a status line, the server log has no recovered handler panic. Held on the inputs tried.",
+   "(A) 2.5M-126M generated inputs per run into Keyframe, KeyframeDimensions, PacketFlags, RewritePacket and sdpfrag inside canary-filled arenas: no panic, length unchanged, canaries and foreign bytes intact. (B) every signalling message type x field mutation x 23 membership states (incl. 13 kinds of refused join, pipelined, concurrent), raw frames; (C) 31 path shapes x 9 methods x credentials x bodies, a third hand-written on a raw connection, every malformed entity-tag list in both precondition headers on every shape, WHIP session lives; (D) real SRTP sessions with hostile payloads of every codec and a publisher offering only an H.264 profile the group does not list: after each batch a canary client, a fresh join and a bystander are still served, every request got a status line, the server log has no recovered handler panic. Held on the inputs tried.",
    "Load sensitivity of galene's 500 ms write deadline is handled by retrying state set-ups and re-checking bystander losses in a fresh state (recorded as an assumption).", "5/C12"),
 }
 
